@@ -72,7 +72,7 @@ def grid_one(run, dim, height, periodic, order):
             f.write(out)
         env["GRID_TABLE"] = tpath
         c = cfg("Spec", dict(Dim=dim, Height=height, Periodic=periodic, Ordering="table", EmitJson=True, Shard=0, NbShards=1), ["Emit"])
-    res = run_tlc("GridCheck", c, env=env, workers=4, timeout=1500, tag=name)
+    res = run_tlc("GridCheck", c, env=env, workers=1, timeout=1500, tag=name)
     run.add_tlc(name, res)
     viol = []
     if res.violated:
@@ -133,6 +133,373 @@ def check_c11(run):
 
 
 # =====================================================================================================
+# The Fmm.tla campaigns (C01, C02, C06, C07, C08, C09, C10-inner, C12, C13, C16, C17, C18)
+# =====================================================================================================
+HIST = {"full": 0, "stages3": 1, "single6": 2, "nearfirst": 3, "farnear": 4, "p2ponly": 5, "uponly": 6, "m2lafterup": 7,
+        "rebuild": 8, "move1": 9, "move2": 10, "build": 99}
+FMM_INVS = ["NoAssertFail", "TreeOKWhenBuilt", "GeometricConsistency", "BatchWithinCapacity", "NothingAboveStopLevel",
+            "MultipoleDef", "LocalDef", "RhsDef", "Completes", "ExactlyOnce", "ImagesOnceInner", "CountersEqualElementary",
+            "ElementarySetIndependentOfGrouping", "RebuildAddsOneInteraction", "RebuildResets", "Emit"]
+NVARIANTS = 16
+# which mismatch kinds of the replay harness belong to which property
+KINDS = {
+    "C01": ["Digest.mp", "Digest.lo", "Digest.rhs", "ExactlyOnce", "Crash"],
+    "C02": ["Arg", "Crash"],
+    "C06": ["StoredOnce", "InRightLeaf", "DataBitExact", "ZeroInit", "ExecPreservesSymbolic", "Crash"],
+    "C07": ["Groups", "GroupHeader", "LeafGroupsAligned", "Crash"],
+    "C08": ["Elem", "Digest.mp", "Digest.lo", "Digest.rhs", "Crash"],
+    "C09": ["Digest.mp", "Digest.lo", "Digest.rhs", "ExactlyOnce", "SourcesUntouched", "Elem", "Arg", "Groups", "Crash"],
+    "C10": ["Digest.mp", "Digest.lo", "Digest.rhs", "Elem", "Arg", "Crash"],
+    "C12": ["WriteSets", "NothingAboveStopLevel", "Digest.mp", "Digest.lo", "Digest.rhs", "Crash"],
+    "C13": ["RebuildPreserves", "Groups", "GroupHeader", "LeafGroupsAligned", "StoredOnce", "InRightLeaf", "DataBitExact", "ZeroInit",
+            "Digest.mp", "Digest.lo", "Digest.rhs", "Crash"],
+    "C16": ["Find", "Crash"],
+    "C17": ["Export", "Crash"],
+    "C18": ["Counters", "Crash"],
+}
+
+
+def fmm_record(r, pool, variant):
+    v = [variant, 1 if r["mode"] == "tsm" else 0, r["dim"], r["height"], int(r["periodic"])]
+    v += [len(r["sparts"])] + list(r["sparts"]) + [len(r["tparts"])] + list(r["tparts"]) + [len(pool)] + sorted(pool)
+    v += [r["bs"], int(r["ogpp"]), r["stop"], HIST[r["hist"]]]
+    for G in (r["sgroups"], r["tgroups"], r.get("fsgroups", r["sgroups"]), r.get("ftgroups", r["tgroups"])):
+        for lvl in G:
+            v.append(len(lvl))
+            for g in lvl:
+                v += [len(g)] + list(g)
+    if "mpd" not in r:       # build-only scenarios of BlockTreeMC.tla carry no expansion state
+        v += [0] * (6 * r["height"] + 2 + 7 + 3)
+        return " ".join(map(str, v))
+    for D in (r["mpd"], r["lod"]):
+        for row in D:
+            v += list(row)
+    v += list(r["rhsd"]) + list(r["cnt"]) + [r["elem"], r["nelem"], 0 if r["bad"] == "" else 1]
+    return " ".join(map(str, v))
+
+
+def fmm_constants(dim, height, pool, periodic=False, mode="single", maxper=1, maxparts=None, bss=(1, 2, 3, 20), gmodes=(False, True),
+                  stops=(2,), hists=("full",)):
+    return dict(Dim=dim, Height=height, Periodic=periodic, Mode=mode, Pool=set(pool), MaxPerLeaf=maxper,
+                MaxParts=maxparts if maxparts is not None else len(pool) * maxper, BlockSizes=set(bss),
+                GroupModes="{" + ", ".join("TRUE" if g else "FALSE" for g in gmodes) + "}", StopLevels=set(stops),
+                Histories="{" + ", ".join('"%s"' % h for h in hists) + "}", EmitJson=True, Shard=0, NbShards=1)
+
+
+def tlc_sharded(module, consts, invs, props, nshards, workers_each, timeout, tag):
+    """Run nshards TLC processes on disjoint shards of the scenario space (constants Shard / NbShards) and merge the results.
+    TLC computes initial states in one thread, so scenario-per-initial-state specifications scale by processes, not workers."""
+    def one(i):
+        c = dict(consts)
+        c["Shard"], c["NbShards"] = i, nshards
+        return run_tlc(module, cfg("Spec", c, invs, props), workers=workers_each, timeout=timeout, tag="%s-s%d" % (tag, i), heap="3g")
+    if nshards == 1:
+        return one(0)
+    with ThreadPoolExecutor(max_workers=nshards) as ex:
+        parts = list(ex.map(one, range(nshards)))
+    res = parts[0]
+    for p in parts[1:]:
+        res.generated += p.generated
+        res.distinct += p.distinct
+        res.lines += p.lines
+        res.wall = max(res.wall, p.wall)
+        res.ok = res.ok and p.ok
+        res.violated = res.violated or p.violated
+        res.error = res.error or p.error
+    return res
+
+
+def fmm_campaign(run, name, consts, workers=1, timeout=1500, variant="plain", cap=64, module="Fmm", shards=8):
+    """TLC explores every scenario of the configuration (checking the invariants of Fmm.tla in every state) and prints one line
+    per finished scenario; the scenarios are replayed on the real classes by replay_fmm.  Returns (scenario lines, mismatches)."""
+    if module == "Fmm":
+        res = tlc_sharded("Fmm", consts, FMM_INVS, ["WriteSets"], shards, workers, timeout, name)
+    else:
+        res = tlc_sharded(module, consts, ["TreeOK", "LookupOK", "GroupsShrinkUpwards", "FullButLast", "Emit"], [], shards, workers, timeout, name)
+    run.add_tlc(name, res, note="%s Dim=%s Height=%s Periodic=%s Mode=%s pool=%d maxPerLeaf=%s bs=%s stops=%s hists=%s shards=%d" % (
+        module, consts["Dim"], consts["Height"], consts["Periodic"], consts.get("Mode", "single"), len(consts["Pool"]), consts["MaxPerLeaf"],
+        sorted(consts["BlockSizes"]), sorted(consts.get("StopLevels", [])), consts.get("Histories", ""), shards))
+    if res.violated:
+        run.machinery_errors.append("TLC: %s of spec/%s.tla is violated in configuration %s: the specification itself is inconsistent (log %s)" % (res.violated, module, name, res.logpath))
+        return [], []
+    scn = [r for r in res.lines if r.get("k") == "scn"]
+    binp = need(build("replay_fmm_%d_%d_%d%s" % (consts["Dim"], int(consts["Periodic"]), cap, "_asan" if variant == "asan" else ""), "replay_fmm.cpp",
+                      ["DIMV=%d" % consts["Dim"], "PERIODICV=%d" % int(consts["Periodic"]), "CAPV=%d" % cap], variant=variant), run)
+    pool = sorted(consts["Pool"])
+    recs = [fmm_record(r, pool, (i + run.seed) % NVARIANTS) for i, r in enumerate(scn)]
+    nchunks = max(1, min(vlib.NCPU, len(recs) // 200))
+    chunks = [recs[i::nchunks] for i in range(nchunks)]
+    mism, checks = [], 0
+    with ThreadPoolExecutor(max_workers=nchunks) as ex:
+        outs = list(ex.map(lambda ch: run_bin(binp, [], stdin_text="\n".join(ch) + "\n", timeout=timeout), chunks))
+    for (rc, out, err), ch in zip(outs, chunks):
+        m, summary = parse_harness_output(out)
+        if summary is None or rc not in (0, 1, 3):
+            if rc in (98, 99) or "Sanitizer" in err or "runtime error" in err:
+                m.append(("Sanitizer", name, (err.strip().splitlines() or ["sanitizer report"])[0][:300]))
+            else:
+                raise vlib.HarnessError("replay_fmm failed in %s (exit %s): %s" % (name, rc, (err or out)[-400:]))
+        else:
+            checks += summary.get("checks", 0)
+        mism += m
+    run.add_harness(name, {"scenarios": len(recs), "checks": checks, "mismatches": len(mism)}, 0)
+    run.coverage["traces_validated_against_impl"] += len(recs)
+    run.coverage["evaluations"] += len(recs)
+    run.coverage["distinct_nontrivial"] += sum(1 for r in scn if len(set(r["sparts"])) >= 2 and max(len(l) for l in r["sgroups"]) >= 2)
+    if scn:
+        r = scn[len(scn) // 2]
+        run.sample({"config": name, "scenario": {k: r[k] for k in ("mode", "dim", "height", "periodic", "sparts", "tparts", "bs", "ogpp", "stop", "hist", "sgroups", "rhsd", "cnt", "elem") if k in r}})
+    return list(zip(scn, recs)), mism
+
+
+def report_mismatches(run, pid, name, pairs, mism, kinds=None):
+    kinds = KINDS[pid] if kinds is None else kinds
+    byrec = {}
+    for kind, key, text in mism:
+        if kind not in kinds and kind != "Sanitizer":
+            continue
+        base = re.sub(r"-(src|tgt|final)$", "", key)
+        if (kind, base) in byrec:
+            continue
+        byrec[(kind, base)] = 1
+        rec = None
+        for r, line in pairs:
+            if scenario_key(r, line) == base:
+                rec = line
+                break
+        replay = run.write_replay(kind + "-" + base, {"kind": "fmm", "config": name, "record": rec, "mismatch": kind, "text": text,
+                                                       "dim": pairs[0][0]["dim"] if pairs else None, "periodic": pairs[0][0]["periodic"] if pairs else None})
+        run.violation(kind + ":" + base, text, replay)
+
+
+def scenario_key(r, line):
+    variant = line.split(" ", 1)[0]
+    k = "d%dh%d%s%s-S[%s]" % (r["dim"], r["height"], "p" if r["periodic"] else "", "-tsm" if r["mode"] == "tsm" else "", ",".join(map(str, r["sparts"])))
+    if r["mode"] == "tsm":
+        k += "-T[%s]" % ",".join(map(str, r["tparts"]))
+    return k + "-bs%d-og%d-st%d-hi%d-v%s" % (r["bs"], int(r["ogpp"]), r["stop"], HIST[r["hist"]], variant)
+
+
+POOL_1D_H5 = [0, 1, 2, 5, 6, 7, 8, 11, 14, 15]          # 10 of the 16 leaves of the 1-D height-5 tree
+POOL_1D_H6 = [0, 1, 3, 12, 15, 16, 17, 30, 31]
+POOL_2D_H4 = [0, 3, 5, 12, 17, 30, 33, 48, 51, 63]      # 10 of the 64 leaves of the 2-D height-4 tree
+POOL_2D_H3 = list(range(16))
+POOL_3D_H3 = [0, 7, 9, 27, 36, 56, 62, 63]              # 8 of the 64 leaves of the 3-D height-3 tree
+POOL_3D_H4 = [0, 7, 64, 73, 292, 438, 504, 511]
+POOL_4D_H3 = [0, 15, 17, 85, 170, 240, 255]
+
+
+def std_configs(tier, hists=("full",), stops=(2,), bss=(1, 2, 3, 20), small=False):
+    """The standard family of configurations shared by several properties (dimension 1-4)."""
+    if tier == "quick":
+        cs = [("1d-h5", fmm_constants(1, 5, POOL_1D_H5[:8 if small else 10], bss=bss, stops=stops, hists=hists)),
+              ("2d-h4", fmm_constants(2, 4, POOL_2D_H4[:6 if small else 8], bss=bss, stops=stops, hists=hists)),
+              ("3d-h3", fmm_constants(3, 3, POOL_3D_H3[:5 if small else 6], bss=bss, stops=stops, hists=hists)),
+              ("4d-h3", fmm_constants(4, 3, POOL_4D_H3[:4], bss=bss, stops=stops, hists=hists))]
+    else:
+        cs = [("1d-h5", fmm_constants(1, 5, list(range(16))[:12], bss=bss + (5,), stops=stops, hists=hists)),
+              ("1d-h6", fmm_constants(1, 6, POOL_1D_H6, bss=bss, stops=stops, hists=hists)),
+              ("2d-h4", fmm_constants(2, 4, POOL_2D_H4, bss=bss, stops=stops, hists=hists)),
+              ("2d-h3", fmm_constants(2, 3, POOL_2D_H3[:12], bss=bss, stops=stops, hists=hists)),
+              ("3d-h3", fmm_constants(3, 3, POOL_3D_H3, bss=bss, stops=stops, hists=hists)),
+              ("3d-h4", fmm_constants(3, 4, POOL_3D_H4[:7], bss=bss, stops=stops, hists=hists)),
+              ("4d-h3", fmm_constants(4, 3, POOL_4D_H3, bss=bss, stops=stops, hists=hists))]
+    return cs
+
+
+def tree_constants(dim, height, pool, periodic=False, maxper=1, maxparts=None, bss=(1, 2, 3, 5, 20), gmodes=(False, True), emit_every=1):
+    return dict(Dim=dim, Height=height, Periodic=periodic, Pool=set(pool), MaxPerLeaf=maxper,
+                MaxParts=maxparts if maxparts is not None else len(pool) * maxper, BlockSizes=set(bss),
+                GroupModes="{" + ", ".join("TRUE" if g else "FALSE" for g in gmodes) + "}", EmitEvery=emit_every, Shard=0, NbShards=1)
+
+
+def run_fmm_configs(run, pid, configs, kinds=None, workers=1, parallel=2, cap=64, module="Fmm", shards=8):
+    allpairs = []
+    def one(c):
+        name, consts = c
+        return name, fmm_campaign(run, pid + "-" + name, consts, workers=workers, cap=cap, module=module, shards=shards)
+    with ThreadPoolExecutor(max_workers=parallel) as ex:
+        results = list(ex.map(one, configs))
+    for name, (pairs, mism) in results:
+        report_mismatches(run, pid, pid + "-" + name, pairs, mism, kinds)
+        allpairs += pairs
+    return allpairs
+
+
+FMM_ASSUME = ["bounded grids/pools as listed in tlc_runs (exhaustive over every occupancy pattern of the pool, block size, grouping mode within the bound)",
+              "digests (per level: number of cells, sum of multiplicities, weighted sum) stand for the full bag state; the closed-form exactly-once check on the real buffers is independent of them",
+              "particle positions are synthesised from leaf coordinates in 16 variants (2 boxes x 4 placement classes x 2 insertion orders), dyadic so that binning is exact"]
+FMM_RULE = ("one case = one (occupancy pattern, block size, grouping mode, stop level, history) explored by TLC to completion with every invariant of "
+            "spec/Fmm.tla evaluated in every state, then replayed on the real TbfTree/TbfAlgorithm with the bag kernel; non-trivial = at least two occupied "
+            "leaves and at least two groups at some level")
+
+
+def tree_configs(tier):
+    if tier == "quick":
+        return [("tree-1d-h5", tree_constants(1, 5, range(12))), ("tree-2d-h3", tree_constants(2, 3, range(11))),
+                ("tree-2d-h4", tree_constants(2, 4, POOL_2D_H4)), ("tree-3d-h3", tree_constants(3, 3, POOL_3D_H3)),
+                ("tree-1d-h4-multi", tree_constants(1, 4, range(6), maxper=2, bss=(1, 2, 3, 7)))]
+    return [("tree-1d-h5", tree_constants(1, 5, range(16), bss=(1, 2, 3, 4, 5, 7, 16, 17), emit_every=7)),
+            ("tree-2d-h3", tree_constants(2, 3, range(16), bss=(1, 2, 3, 5, 16, 17), emit_every=7)),
+            ("tree-1d-h6", tree_constants(1, 6, POOL_1D_H6 + [7, 20, 21, 24])), ("tree-2d-h4", tree_constants(2, 4, POOL_2D_H4 + [1, 2, 62])),
+            ("tree-3d-h3", tree_constants(3, 3, POOL_3D_H3 + [1, 8, 57, 60])), ("tree-3d-h4", tree_constants(3, 4, POOL_3D_H4 + [1, 8, 448])),
+            ("tree-4d-h3", tree_constants(4, 3, POOL_4D_H3 + [1, 16, 254])),
+            ("tree-1d-h4-multi", tree_constants(1, 4, range(8), maxper=2, bss=(1, 2, 3, 7, 20)))]
+
+
+TREE_RULE = ("one case = one (occupancy pattern, block size, grouping mode): a state of spec/BlockTreeMC.tla on which TLC evaluates the structural "
+             "invariants and the lookup specification; emitted cases are rebuilt with the real TbfTree and compared group by group, header by header, "
+             "and (C16) index by index; non-trivial = at least two occupied leaves and two groups at some level")
+
+
+@check("C07", "model_checking")
+def check_c07(run):
+    run_fmm_configs(run, "C07", tree_configs(run.tier), module="BlockTreeMC", shards=8, workers=1, parallel=2)
+    # trees after rebuild (moves that empty / create leaves and change the number of groups)
+    run_fmm_configs(run, "C07", [("rebuild-1d-h5", fmm_constants(1, 5, POOL_1D_H5[:6], bss=(1, 2, 3), hists=("move1", "move2"))),
+                                 ("rebuild-2d-h4", fmm_constants(2, 4, POOL_2D_H4[:5], bss=(1, 2, 3), hists=("move1", "move2")))])
+    # both trees of the target/source variant
+    run_fmm_configs(run, "C07", [("tsm-1d-h4", fmm_constants(1, 4, range(5), mode="tsm", bss=(1, 2, 3)))])
+    run.coverage["rule"] = TREE_RULE
+    run.coverage["exhaustive"] = True
+    run.assumptions += FMM_ASSUME[:1] + FMM_ASSUME[2:]
+
+
+@check("C16", "model_checking")
+def check_c16(run):
+    run_fmm_configs(run, "C16", tree_configs(run.tier), module="BlockTreeMC", shards=8, workers=1, parallel=2)
+    run_fmm_configs(run, "C16", [("tsm-1d-h4", fmm_constants(1, 4, range(5), mode="tsm", bss=(1, 2, 3))),
+                                 ("rebuild-1d-h5", fmm_constants(1, 5, POOL_1D_H5[:6], bss=(1, 2, 3), hists=("move1",)))])
+    run.coverage["rule"] = TREE_RULE + "; every index from -1 to the upper bound of every level is looked up (sampled above 4096 indices per level, always including every present index and its two neighbours)"
+    run.coverage["exhaustive"] = True
+    run.assumptions += FMM_ASSUME[:1] + FMM_ASSUME[2:]
+
+
+@check("C06", "model_checking")
+def check_c06(run):
+    run_fmm_configs(run, "C06", tree_configs(run.tier), module="BlockTreeMC", shards=8, workers=1, parallel=2)
+    # execution never alters symbolic data: all histories, all executors covered by the Fmm campaigns
+    run_fmm_configs(run, "C06", std_configs(run.tier, hists=("full", "stages3"), small=True)
+                    + [("tsm-1d-h4", fmm_constants(1, 4, range(5), mode="tsm", bss=(1, 2, 3)))])
+    run.coverage["rule"] = TREE_RULE + "; after construction every input particle is stored once, in the leaf of its position, with bit-identical data, results and expansions all-zero bytes; a byte hash of all symbolic buffers is compared before/after every execute()"
+    run.coverage["exhaustive"] = True
+    run.assumptions += FMM_ASSUME
+
+
+@check("C17", "model_checking")
+def check_c17(run):
+    run_fmm_configs(run, "C17", tree_configs(run.tier)[:3], module="BlockTreeMC", shards=8, workers=1, parallel=2)
+    run_fmm_configs(run, "C17", std_configs(run.tier, hists=("full", "move1"), small=True)
+                    + [("tsm-1d-h4", fmm_constants(1, 4, range(5), mode="tsm", bss=(1, 2, 3)))])
+    run.coverage["rule"] = TREE_RULE + "; getAllParticlesData/Rhs are compared entry by entry with the input registry / the result bag found through the leaf accessors, before execution, after execution and after rebuild"
+    run.assumptions += FMM_ASSUME
+
+
+@check("C02", "model_checking")
+def check_c02(run):
+    # every kernel callback of every scenario is checked against the registry of true identities (kind Arg)
+    cs = std_configs(run.tier, hists=("full", "nearfirst"), stops=(0, 2) if run.tier == "quick" else (0, 1, 2, 3), small=True)
+    cs.append(("1d-h5-multi", fmm_constants(1, 5, POOL_1D_H5[:5], maxper=2, bss=(1, 2, 20))))
+    cs.append(("1d-h5-per", fmm_constants(1, 5, POOL_1D_H5[:6], periodic=True, stops=(1,), bss=(1, 2, 20))))
+    cs.append(("2d-h3-per", fmm_constants(2, 3, [0, 3, 5, 10, 15], periodic=True, stops=(1,), bss=(1, 2, 20))))
+    cs.append(("tsm-1d-h4", fmm_constants(1, 4, range(5), mode="tsm", bss=(1, 2, 3))))
+    run_fmm_configs(run, "C02", cs, cap=256)
+    run.coverage["rule"] = FMM_RULE + "; every operator call made by the library is checked: particles inside the leaf box with original index and data, children distinct children of the parent with true octant codes, sources at the encoded offset (modulo the box when periodic), well separated / adjacent, at the stated level, never an empty list"
+    run.coverage["exhaustive"] = True
+    run.assumptions += FMM_ASSUME + ["OpenMP executors are covered by C03's check; Hilbert ordering only by C11 (known finding)"]
+
+
+@check("C08", "model_checking")
+def check_c08(run):
+    bss = (1, 2, 3, 4, 5, 7, 11, 20) if run.tier == "quick" else (1, 2, 3, 4, 5, 6, 7, 8, 9, 11, 13, 20, 1000)
+    cs = std_configs(run.tier, bss=bss, small=True)
+    pairs = run_fmm_configs(run, "C08", cs)
+    # the state digests, the elementary-interaction digest and the counters must be identical for all groupings of one occupancy
+    groups = {}
+    for r, line in pairs:
+        key = (r["dim"], r["height"], tuple(r["sparts"]), r["stop"], r["hist"])
+        sig = json.dumps([r["mpd"], r["lod"], r["rhsd"], r["elem"], r["nelem"], r["cnt"]])
+        groups.setdefault(key, {}).setdefault(sig, []).append((r["bs"], r["ogpp"]))
+    for key, sigs in groups.items():
+        if len(sigs) > 1:
+            run.machinery_errors.append("model: results depend on the grouping for occupancy %s: %s" % (key, list(sigs.values())[:2]))
+    run.coverage["groupings_per_occupancy"] = max((sum(len(v) for v in sigs.values()) for sigs in groups.values()), default=0)
+    run.coverage["rule"] = FMM_RULE + "; for every occupancy all block sizes x both grouping modes must give the same multiset of elementary interactions (digest and count recorded from the kernel callbacks) and bit-identical bag state as the grouping-free definition in the specification"
+    run.coverage["exhaustive"] = True
+    run.assumptions += FMM_ASSUME + ["the automatic block size and TBFMM_BLOCK_SIZE are exercised by C19's matrix"]
+
+
+@check("C12", "model_checking")
+def check_c12(run):
+    hists = ("full", "stages3", "single6", "nearfirst", "farnear", "p2ponly", "uponly", "m2lafterup")
+    if run.tier == "quick":
+        cs = [("1d-h5", fmm_constants(1, 5, POOL_1D_H5[:6], bss=(1, 2, 20), stops=(0, 1, 2, 3, 4, 5), hists=hists)),
+              ("2d-h4", fmm_constants(2, 4, POOL_2D_H4[:5], bss=(2, 20), stops=(0, 2, 3, 4), hists=hists)),
+              ("3d-h3", fmm_constants(3, 3, POOL_3D_H3[:4], bss=(2,), stops=(0, 2, 3), hists=hists))]
+    else:
+        cs = [("1d-h5", fmm_constants(1, 5, POOL_1D_H5[:8], bss=(1, 2, 3, 20), stops=(0, 1, 2, 3, 4, 5), hists=hists)),
+              ("2d-h4", fmm_constants(2, 4, POOL_2D_H4[:7], bss=(1, 2, 20), stops=(0, 1, 2, 3, 4), hists=hists)),
+              ("3d-h3", fmm_constants(3, 3, POOL_3D_H3[:6], bss=(1, 2, 20), stops=(0, 1, 2, 3), hists=hists)),
+              ("tsm-1d-h4", fmm_constants(1, 4, range(4), mode="tsm", bss=(1, 2), stops=(0, 2, 4), hists=hists))]
+    pairs = run_fmm_configs(run, "C12", cs)
+    # staged histories must end in the state of the single full run (model side: compare the digests TLC printed)
+    byocc = {}
+    for r, line in pairs:
+        if r["hist"] in ("full", "stages3", "single6", "nearfirst", "farnear"):
+            byocc.setdefault((r["dim"], r["height"], tuple(r["sparts"]), tuple(r["tparts"]), r["bs"], r["ogpp"], r["stop"]), {})[r["hist"]] = json.dumps([r["mpd"], r["lod"], r["rhsd"]])
+    for key, d in byocc.items():
+        if len(set(d.values())) > 1:
+            run.machinery_errors.append("model: staged histories differ from the full run for %s" % (key,))
+    run.coverage["rule"] = FMM_RULE + "; histories: the full run, the documented three-stage split, six single-flag calls, near-first and far/near orders (all must end in the same state), and partial runs (near field only, upward only, upward then transfer); the WriteSets action property and NothingAboveStopLevel are checked by TLC on every step, and on the real buffers by byte hashes of the multipole / local / result families before and after every execute()"
+    run.coverage["exhaustive"] = True
+    run.assumptions += FMM_ASSUME + ["OpenMP executor histories are covered by C03"]
+
+
+@check("C13", "model_checking")
+def check_c13(run):
+    hists = ("rebuild", "move1", "move2")
+    if run.tier == "quick":
+        cs = [("1d-h5", fmm_constants(1, 5, POOL_1D_H5[:7], bss=(1, 2, 3, 20), hists=hists)),
+              ("2d-h4", fmm_constants(2, 4, POOL_2D_H4[:6], bss=(1, 2, 20), hists=hists)),
+              ("3d-h3", fmm_constants(3, 3, POOL_3D_H3[:5], bss=(1, 2), hists=hists)),
+              ("1d-h4-multi", fmm_constants(1, 4, range(4), maxper=2, bss=(1, 2), hists=hists))]
+    else:
+        cs = [("1d-h5", fmm_constants(1, 5, POOL_1D_H5[:9], bss=(1, 2, 3, 20), hists=hists)),
+              ("2d-h4", fmm_constants(2, 4, POOL_2D_H4[:8], bss=(1, 2, 3, 20), hists=hists)),
+              ("3d-h3", fmm_constants(3, 3, POOL_3D_H3[:7], bss=(1, 2, 20), hists=hists)),
+              ("4d-h3", fmm_constants(4, 3, POOL_4D_H3[:5], bss=(1, 2), hists=hists)),
+              ("1d-h4-multi", fmm_constants(1, 4, range(6), maxper=2, bss=(1, 2, 3), hists=hists))]
+    run_fmm_configs(run, "C13", cs)
+    run.coverage["rule"] = FMM_RULE + "; histories: execute / rebuild / execute (results must hold exactly two full interactions), and moves of one or two particles to the next pool leaf (emptying and creating leaves, changing the number of groups) followed by rebuild and execute, twice; after every rebuild the real tree must equal the fresh build TLC computed from the edited particles, keep index, data and results bit-exactly and have zeroed expansions"
+    run.coverage["exhaustive"] = True
+    run.assumptions += FMM_ASSUME + ["rebuild of target/source, periodic and Hilbert trees is compiled and run by C19's matrix"]
+
+
+@check("C18", "model_checking")
+def check_c18(run):
+    cs = std_configs(run.tier, hists=("full", "stages3"), stops=(0, 2, 3), small=True)
+    cs.append(("1d-h5-multi", fmm_constants(1, 5, POOL_1D_H5[:5], maxper=3, maxparts=8, bss=(1, 2, 20))))
+    run_fmm_configs(run, "C18", cs)
+    run.coverage["rule"] = FMM_RULE + "; the executor runs TbfInteractionCounter<BagKernel>: its merged counters must equal the cardinalities TLC derives from the elementary sets (CountersEqualElementary), the wrapped kernel's own count, and leave the bag results unchanged"
+    run.coverage["exhaustive"] = True
+    run.assumptions += FMM_ASSUME + ["per-worker copies and merge orders under task schedules are covered by C03's mock-runtime runs"]
+
+
+@check("C01", "model_checking")
+def check_c01(run):
+    cs = std_configs(run.tier)
+    if run.tier == "quick":
+        cs.append(("1d-h5-multi", fmm_constants(1, 5, POOL_1D_H5[:5], maxper=2, bss=(1, 2, 20), stops=(0, 2, 3))))
+    else:
+        cs.append(("1d-h5-multi", fmm_constants(1, 5, POOL_1D_H5[:6], maxper=3, maxparts=9, bss=(1, 2, 20), stops=(0, 1, 2, 3, 4, 5))))
+        cs.append(("2d-h4-multi", fmm_constants(2, 4, POOL_2D_H4[:5], maxper=2, bss=(1, 2, 20), stops=(0, 2, 3))))
+    run_fmm_configs(run, "C01", cs)
+    run.coverage["rule"] = FMM_RULE
+    run.coverage["exhaustive"] = True
+    run.assumptions += FMM_ASSUME
+
+
+# =====================================================================================================
 # command line
 # =====================================================================================================
 def cmd_setup(args):
@@ -180,6 +547,15 @@ def cmd_replay(args):
         for key, text, _ in (hit or viol)[:10]:
             log("REPRODUCED %s: %s" % (key, text))
         return 1 if hit or viol else 0
+    if obj.get("kind") == "fmm":
+        binp, err = build("replay_fmm_%d_%d_64" % (obj["dim"], int(obj["periodic"])), "replay_fmm.cpp", ["DIMV=%d" % obj["dim"], "PERIODICV=%d" % int(obj["periodic"]), "CAPV=64"])
+        if binp is None:
+            log("harness does not compile: " + str(err))
+            return 2
+        rc, out, err = run_bin(binp, [], stdin_text=obj["record"] + "\n")
+        print(out[-3000:])
+        mism, summary = parse_harness_output(out)
+        return 1 if mism else 0
     log("unknown replay kind")
     return 2
 
